@@ -248,6 +248,9 @@ class C12:
             viol.append({'class': cls, 'signature': sig, 'seq': log.seq, 'expected': expected, 'actual': actual, 'detail': detail})
 
         doc = docgen.Doc.from_json(plan['doc'])
+        if not doc.consistent():
+            from simkit.runner import HarnessError
+            raise HarnessError('plan document: the abstract annotation does not match its own spine operators')
         faults = plan['faults']
         blank = plan.get('blank_lines') or []
         clean_text, bad_text, line_of = self._render(doc, plan['eol'], plan['final_newline'], faults, blank)
@@ -699,6 +702,8 @@ class C12:
         import kernpy as kp
         try:
             doc = docgen.Doc.from_json(plan['doc'])
+            if not doc.consistent():
+                return False
             text, _, _ = self._render(doc, plan['eol'], plan['final_newline'], [], [])
             d, e = kp.loads(text)
             if not plan['faults']:
